@@ -85,8 +85,10 @@ EXCS = {
     "zerodiv": lambda: ZeroDivisionError("z"), "custom": lambda: Custom("c", 1),
     "base": lambda: Odd("odd"),
 }
-CB_KINDS = ["probe", "wrap", "none", "raise", "recover", "chain_ok", "chain_fail"]
-UNFIRED, UNKNOWN = ("unfired",), ("unknown",)
+CB_KINDS = ["probe", "wrap", "none", "raise", "recover", "chain_ok", "chain_fail", "chain_wait"]
+UNFIRED, UNKNOWN, WAITING = ("unfired",), ("unknown",), ("waiting",)
+# "waiting": the Deferred was fired, but a callback returned a Deferred that has not fired yet (a nested result that is still
+# outstanding): there is neither a value nor a failure, so it is classified like an unfired one until the inner one fires ("release")
 
 
 def show(state):
@@ -117,6 +119,7 @@ class Run:
         self.log_unspecified = False
         self.problems = []
         self.ncb = 0
+        self.inner = None
         if start[0] == "unfired":
             self.d = defer.Deferred()
         elif start[0] == "value":
@@ -152,6 +155,14 @@ class Run:
         if self.tainted:
             self.cur = UNKNOWN
 
+    def release(self, key):
+        """fire the outstanding nested Deferred with a value"""
+        if self.inner is None or self.inner.called:
+            return
+        if self.cur is WAITING:
+            self.cur = ("ok", self.vals[key])
+        self.inner.callback(self.vals[key])
+
     def add_cb(self, kind):
         self.ncb += 1
         label = "harness callback #%d (%s)" % (self.ncb, kind)
@@ -159,7 +170,8 @@ class Run:
         if not checked and kind in ("raise", "chain_fail"):
             self.log_unspecified = True
 
-        def step(x, path):
+        def step(x, path, checked=checked):
+            checked = checked and self.cur is not UNKNOWN     # queued behind a nested result and run after the model lost track
             if checked:
                 exc = getattr(x, "value", None) if path == "err" else None
                 same = self.cur[0] == path and self.cur[1] is (x if path == "ok" else exc)
@@ -171,10 +183,15 @@ class Run:
 
             if kind == "probe":
                 return x
+            if kind == "chain_wait" and self.inner is None:
+                self.inner = defer.Deferred()
+                if checked:
+                    self.cur = WAITING
+                return self.inner
             if kind in ("raise", "chain_fail"):
                 new = ("err", KeyError("from-callback") if kind == "raise" else LookupError("chained"))
             else:
-                new = ("ok", {"wrap": [x], "none": None, "chain_ok": ("chained", x),
+                new = ("ok", {"wrap": [x], "none": None, "chain_ok": ("chained", x), "chain_wait": [x],
                               "recover": ("recovered", type(getattr(x, "value", x)).__name__)}[kind])
             if checked:
                 self.cur = new
@@ -237,7 +254,7 @@ class Run:
             return
         kind = state[0]
         applicable = {"no_result": False, "succeeded": kind == "ok", "failed": kind == "err"}[which]
-        expected = (kind == "unfired") if which == "no_result" else (applicable and pred(state))
+        expected = (kind in ("unfired", "waiting")) if which == "no_result" else (applicable and pred(state))
         if matched is not expected:
             self.problem("%s -> %s" % (what, {True: "match", False: "mismatch"}.get(matched, matched)),
                          "match" if expected else "mismatch")
@@ -265,13 +282,13 @@ class Run:
         except BaseException as e:
             got = ("err", e)
         if state is not UNKNOWN and not (
-                got[0] == state[0] and (len(got) == 1 or got[1] is state[1])):
+                got[0] == ("unfired" if state is WAITING else state[0]) and (len(got) == 1 or got[1] is state[1])):
             did = {"ok": "returned %r", "err": "raised %r"}.get(got[0], "raised DeferredNotFired%s")
             self.problem(
                 "extract_result on a Deferred in state %s %s"
                 % (show(state), did % ((got[1:] or ("",))[0],)),
                 {"ok": "return that very value", "err": "raise that very exception",
-                 "unfired": "raise DeferredNotFired"}[state[0]])
+                 "unfired": "raise DeferredNotFired", "waiting": "raise DeferredNotFired (no value yet)"}[state[0]])
         self.tainted = self.log_unspecified = True
         if self.fired:
             self.cur = UNKNOWN
@@ -297,7 +314,7 @@ def run_deferred(sc):
     run = Run(sc["start"])
     for op in sc["ops"]:
         name, args = op[0], op[1:]
-        {"cb": run.add_cb, "fire": run.fire, "match": run.match, "extract": run.extract}[name](*args)
+        {"cb": run.add_cb, "fire": run.fire, "match": run.match, "extract": run.extract, "release": run.release}[name](*args)
     problems, check_log = run.problems, run.finish()
     del run
     logged = collect_log()
@@ -436,6 +453,7 @@ def small_scenarios():
                     for fa in (fire_after if unfired else [None]):
                         for sec in (second if len(pre) < 2 else [None]):
                             ops = [["cb", k] for k in pre] + [fb, mid, fa, ["cb", "probe"], sec,
+                                                             ["release", "nested"] if "chain_wait" in pre else None,
                                                              ["cb", "wrap"], ["cb", "probe"]]
                             yield {"kind": "deferred", "start": start,
                                    "ops": [op for op in ops if op is not None]}
@@ -457,6 +475,8 @@ def random_scenario(rng):
             ops.append(["cb", rng.choice(CB_KINDS)])
         elif r < 0.55:
             ops.append(["fire"] + fire())
+        elif r < 0.6:
+            ops.append(["release", rng.choice(sorted(VALUES))])
         elif r < 0.95:
             ops.append(["match", rng.choice(["no_result", "succeeded", "failed"]), rng.choice(inners)])
         else:
